@@ -333,6 +333,8 @@ class Eval:
         if k == "agg":
             a = rv["agg"]
             ops = [self.operand(env, o, point) for o in rv["ops"]]
+            if any(o == ("unreachable",) for o in ops):
+                return ("unreachable",)  # built from a value of an infeasible branch
             if a == "tuple":
                 return ("tuple", tuple(ops))
             if a == "array":
@@ -550,6 +552,7 @@ class Eval:
                         alts.append(a)
             elif v not in alts:
                 alts.append(v)
+        alts = [a for a in alts if a != ("unreachable",)] or alts
         if not alts:
             return ("unreachable",)
         if len(alts) == 1:
